@@ -570,3 +570,53 @@ def purity(seed, n):
 def BaseEdgeInit(self, vertex_ids, information):
     from graphslam.edge.base_edge import BaseEdge
     BaseEdge.__init__(self, vertex_ids, information, 1.0)
+
+
+# ------------------------------------------------------------------------------------------------
+# C05: local convergence soak (a TEST: calibrated neighbourhood, see DESIGN.md)
+C05_BOUNDS = {'noise_t': 0.02, 'pert_t': 0.1}     # rotational noise / perturbation are half / a quarter of these (oracle_edges.build_graph)
+
+
+def local_convergence(seed, n, scale=1.0):
+    rng = random.Random(seed)
+    fails, evals = [], 0
+    for i in range(n):
+        kind = rng.choice(['SE2', 'SE3'])
+        nv = rng.randint(3, 40 if rng.random() < 0.15 else 12)
+        noise_free = rng.random() < 0.3
+        noise = 1e-10 if noise_free else rng.uniform(0, C05_BOUNDS['noise_t'] * scale)
+        pert = rng.uniform(0, C05_BOUNDS['pert_t'] * scale)
+        g, truth = oe.build_graph(rng, kind, nv=nv, landmarks=True, noise=max(noise, 1e-12), pert=pert, info_cross=True)
+        tol = 10 ** rng.uniform(-10, -3)
+        c0 = g.calc_chi2()
+        try:
+            res = g.optimize(tol=tol, max_iter=50, verbose=False)
+        except Exception as ex:  # noqa
+            fails.append({'law': 'optimize raised %r' % (ex,), 'seed': seed, 'case': i, 'edge': 'graph'})
+            continue
+        evals += 1
+        c1 = g.calc_chi2()
+        if not c1 <= c0 * (1 + 1e-12) + 1e-18:
+            fails.append({'law': 'final chi2 %r exceeds initial chi2 %r' % (c1, c0), 'seed': seed, 'case': i, 'kind': kind, 'edge': 'graph'})
+            continue
+        H, b, off = dense_system(g)
+        try:
+            dec = float(b @ np.linalg.solve(H, b))
+        except np.linalg.LinAlgError:
+            continue
+        if not dec <= 10.0 * tol * (c1 + 1e-9) + 1e-12:
+            fails.append({'law': 'Newton decrement %g of the independent model exceeds 10*tol*chi2 = %g' % (dec, 10 * tol * c1), 'seed': seed, 'case': i,
+                          'kind': kind, 'nv': nv, 'tol': tol, 'chi2': c1, 'edge': 'graph'})
+            continue
+        if noise_free and tol <= 1e-6:
+            # relative poses reproduce the ground truth
+            vs = g._vertices
+            for a in range(min(nv, len(vs)) - 1):
+                rel = vs[a + 1].pose - vs[a].pose if kind in ('SE2', 'SE3') else None
+                ref = truth[a + 1] - truth[a]
+                if not poses_close(ref, rel, 1e-5) and not (kind == 'SE2' and np.allclose(np.asarray(ref)[:2], np.asarray(rel)[:2], atol=1e-5)
+                                                           and abs(math.remainder(float(ref[2] - rel[2]), 2 * math.pi)) < 1e-5):
+                    fails.append({'law': 'noise-free problem: optimized relative pose differs from the ground truth', 'seed': seed, 'case': i, 'kind': kind,
+                                  'pair': a, 'expected': np.asarray(ref).tolist(), 'got': np.asarray(rel).tolist(), 'edge': 'graph'})
+                    break
+    return evals, fails
